@@ -298,6 +298,15 @@ func runCase(c *Case) (seen map[string][]Ev, problem string) {
 			case <-time.After(5 * time.Second):
 				return r.snapshot(), "harness: subscriber does not stop"
 			}
+		case "revive":
+			// the id of a subscriber that stopped earlier is spawned again and the new actor subscribes (what was
+			// broadcast before has been through the stream by then)
+			if !r.quiesce(&nmark, live, 1) {
+				return r.snapshot(), r.quiesceProblem()
+			}
+			np := e.Spawn(r.recorder(op.P), "sub", actor.WithID(op.P))
+			e.Subscribe(np)
+			live[op.P] = true
 		case "send":
 			var target, sender *actor.PID
 			switch op.Target {
